@@ -135,10 +135,10 @@ Proof.
     match goal with |- rbind (foldM ?f ?l ?s0) _ = ROk _ -> _ =>
       destruct (foldM f l s0) as [?s| |] eqn:E; cbn [rbind]; try discriminate end).
   intros E8.
-  assert (H1 : Rej H s0) by (eapply (foldM_pres (Rej H)); [|exact Hs|exact E]; st1 rform1_nr).
-  assert (H2 : Rej H s1) by (eapply (foldM_pres (Rej H)); [|exact H1|exact E0]; st1 revise_conf1_nr).
-  assert (H3 : Rej H s2) by (eapply (foldM_pres (Rej H)); [|exact H2|exact E1]; st1 rsucc1_nr).
-  assert (H4 : Rej H s3) by (eapply (foldM_pres (Rej H)); [|exact H3|exact E2]; st1 rfail1_nr).
+  assert (H1 : Rej H s0) by (eapply (foldM_pres (Rej H)); [|exact Hs|exact E]; st1 revise_conf1_nr).
+  assert (H2 : Rej H s1) by (eapply (foldM_pres (Rej H)); [|exact H1|exact E0]; st1 rsucc1_nr).
+  assert (H3 : Rej H s2) by (eapply (foldM_pres (Rej H)); [|exact H2|exact E1]; st1 rfail1_nr).
+  assert (H4 : Rej H s3) by (eapply (foldM_pres (Rej H)); [|exact H3|exact E2]; st1 rform1_nr).
   assert (H5 : Rej H s4) by (eapply (foldM_pres (Rej H)); [|exact H4|exact E3]; st2 rform2_nr).
   assert (H6 : Rej H s5) by (eapply (foldM_pres (Rej H)); [|exact H5|exact E4]; st2 revise_elem2_nr).
   assert (H7 : Rej H s6) by (eapply (foldM_pres (Rej H)); [|exact H6|exact E5]; st2 rsucc2_S_nr).
